@@ -1,4 +1,4 @@
 PROPS = {
-    "C18": dict(kind="config", profiles=["default", "imm", "loops", "parallel", "parloop", "react"],
+    "C18": dict(kind="config", profiles=["default", "imm", "loops", "parallel", "parloop", "react", "react_all"],
                 quick=48, thorough=1500, draw_quick=2, draw_thorough=20),
 }
